@@ -34,6 +34,8 @@ def run_property(prop, tier="quick", root=None, overlay=None, seed=0):
         ctx.attempt(rule_state, ctx, prop + ".state")
     if not os.environ.get("TYVERIF_NOEXPECT") and not ctx.errors:
         for rid, n in getattr(mod, "EXPECT", {}).items():
+            if rid in getattr(ctx, "expect_waived", ()):
+                continue
             try:
                 ctx.expect_instances(rid, n)
             except AnalysisError as e:
@@ -93,7 +95,7 @@ def unconfirmed(ctx, o):
     """(function, changed statements) when the construct of an unmet obligation lies in a function that differs from the snapshot in
     more statements than the limit (tyverif/novelty.py); None otherwise"""
     lim = novelty.limit()
-    if lim <= 0 or ":" not in (o.where or ""):
+    if lim <= 0 or ":" not in (o.where or "") or getattr(o, "complete", False):
         return None
     rel, _, line = o.where.rpartition(":")
     try:
@@ -172,6 +174,12 @@ def main(argv=None):
             known_hits.append(o.key())
             continue
         nv = unconfirmed(ctx, o)
+        sup = [by for pre, by in getattr(ctx, "superseded", {}).items()
+               if o.construct == pre or (pre.endswith((".", "[")) and o.construct.startswith(pre))] if nv is not None else []
+        if sup:
+            # the structural reading is unconfirmed on this restructured function, and a complete evaluation of the same function gave its verdict
+            ctx.extra.setdefault("superseded", []).append({"rule": o.rule, "construct": o.construct, "where": o.where, "decided_by": sup[0], "changed_statements": nv[1]})
+            continue
         if nv is not None:
             # the function has been restructured beyond what the rule was confirmed on: the unmet obligation is no verdict, not an alarm
             msg = "%s: obligation %s not met (%s), but %s differs from the tree the rules were confirmed on in %d statements (limit %d): " \
